@@ -194,7 +194,7 @@ inline void* do_new(size_t n, size_t align, bool nothrow) {
       if (!p) abort();
       return p;
     }
-    if (R.alloc_window && fault(USIM_F_ALLOC)) {
+    if (t->alloc_window && fault(USIM_F_ALLOC)) {
       if (nothrow) return nullptr;
       throw std::bad_alloc();
     }
